@@ -144,7 +144,7 @@ func runC14(c *Ctx) {
 			okf := len(sts) == 1 && strings.HasSuffix(Term(sts[0].(*ssa.Store).Val), a.want)
 			c.Ob("C14-D1", "eio.clientSocket.connect/"+a.field, co.Pos(), okf, "clientSocket."+a.field+" must be taken from the handshake response ("+a.want+")")
 			for _, f := range p.SrcFuncs() {
-				if f == co {
+				if EnclosingTop(f) == co {
 					continue
 				}
 				for _, st := range findInstrs(f, fieldStorePred(fv)) {
